@@ -20,7 +20,9 @@ pub fn check_case(ctx: &mut ShardCtx, tape: &[u8], profile: &str) -> Outcome {
         Err(o) => return o,
     };
     classify_features(ctx, &p.features);
-    let res = run_impl(&p.source, &[Mode::FP], false);
+    // R's step count bounds the work only when R followed the program to its end
+    let budget = if r.ambiguous.is_none() { budget_for(r.stats.steps) } else { WORK_BUDGET };
+    let res = run_impl_budget(&p.source, &[Mode::FP], false, budget, &[]);
     let obs = match &res[0] {
         crate::pipeline::ModeResult::Ok(o) => o,
         crate::pipeline::ModeResult::Crash(c) => {
@@ -31,6 +33,24 @@ pub fn check_case(ctx: &mut ShardCtx, tape: &[u8], profile: &str) -> Outcome {
             if c == "timeout" {
                 ctx.inconclusive += 1;
                 return Outcome::Discard("U8 watchdog");
+            }
+            if is_work_budget(c) && r.ambiguous.is_some() {
+                return Outcome::Discard("U8 work budget (reference stopped at an unspecified zone)");
+            }
+            if is_work_budget(c) {
+                // R finished within 200 k steps; the implementation did 3 M units of work and was still going
+                return fail(
+                    format!("runs-on|reference ends {}", ending_name(&r.ending)),
+                    format!(
+                        "the reference interpreter ends ({}) after {} steps and {} values; the implementation was still running after {budget} executed statements + loop iterations",
+                        ending_name(&r.ending),
+                        r.stats.steps,
+                        r.output.len()
+                    ),
+                    tape,
+                    profile,
+                    &p.source,
+                );
             }
             return fail(
                 format!("crash|{c}"),
